@@ -29,3 +29,8 @@
 ; lroot(v): the canonical square root of a square v (the lexicographically largest one; 0 for 0) - unique (A3)
 (declare-fun lroot (Fp) Fp)
 (assert (forall ((y Fp) (v Fp)) (! (=> (and (= (fp_mul y y) v) (or (fp_lexlargest y) (= y fp_zero))) (= y (lroot v))) :pattern ((fp_mul y y) (lroot v)))))
+; encx(X,Y,Z): the field element serialised for the class of (X:Y:Z): affine x times the sign of affine y,
+; in the shape computed by banderwagon.Element.Bytes (Z == 1 fast path, otherwise division by Z)
+(define-fun encx ((X Fp) (Y Fp) (Z Fp)) Fp
+  (ite (= Z fp_one) (ite (fp_lexlargest Y) X (fp_neg X))
+    (ite (fp_lexlargest (fp_mul Y (fp_inv Z))) (fp_mul X (fp_inv Z)) (fp_neg (fp_mul X (fp_inv Z))))))
